@@ -951,4 +951,31 @@ theorem attr_set_refines (tsSid : Nat) (segs : List Text) (final : Text) (v : No
             Kids.upsert_append_right k _ _ _ hkk]
           simp
 
+theorem findAttrpathLeaf_no_root (ts : Node) (seg0 : Text) (rest : List Text)
+    (h : findAttrpathRoot ts.setValues seg0 = none) : findAttrpathLeaf ts (seg0 :: rest) = none := by
+  cases rest with
+  | nil => exact findAttrpathLeaf_single ts seg0
+  | cons a b => simp [findAttrpathLeaf, walkAttrpathStack, h]
+
+theorem getLast_split (segs : List Text) (hne : segs ≠ []) :
+    ∃ final, segs.getLast? = some final ∧ segs.dropLast ++ [final] = segs := by
+  exact ⟨segs.getLast hne, List.getLast?_eq_some_getLast hne, List.dropLast_concat_getLast hne⟩
+
+theorem findAttrpathLeaf_some (ts : Node) (segs : List Text) (leaf : Node)
+    (h : findAttrpathLeaf ts segs = some leaf) :
+    ∃ st par, walkAttrpathStack ts segs false false = .ok (some st) ∧ st.getLast? = some (par, leaf) := by
+  unfold findAttrpathLeaf at h
+  split at h
+  · rename_i st hst
+    cases hl : st.getLast? with
+    | none => simp [hl] at h
+    | some x =>
+      obtain ⟨par, lf⟩ := x
+      simp only [hl, Option.map_some, Option.some.injEq] at h
+      subst h
+      exact ⟨st, par, hst, hl⟩
+  · cases h
+
+@[simp] theorem setSid_set (c : Nat) (vs o : List Node) (m r : Bool) : (Node.set c vs o m r).setSid? = some c := rfl
+
 end Nima
